@@ -43,8 +43,26 @@ var Kinds = []Kind{
 	{"rsapss3072", protocol.RsaPssKeyType, 3072, "rsa3072", true},
 }
 
+// BoundaryKinds are EC key configurations whose public point has a coordinate with a leading zero byte (about one
+// key in 128 per coordinate): encoders that strip leading zeros and parsers that demand fixed widths meet only here.
+// They are not part of Kinds (the full products run over Kinds); checks that want them ask for them.
+var BoundaryKinds = []Kind{
+	{"ec256-x0", protocol.Secp256r1KeyType, 0, "ec256x0", false},
+	{"ec256-y0", protocol.Secp256r1KeyType, 0, "ec256y0", false},
+	{"ec384-x0", protocol.Secp384r1KeyType, 0, "ec384x0", false},
+	{"ec384-y0", protocol.Secp384r1KeyType, 0, "ec384y0", false},
+}
+
+// IsBoundary reports whether k is one of BoundaryKinds.
+func (k Kind) IsBoundary() bool { return len(k.Alg) > 5 && k.Alg[:2] == "ec" }
+
 // KindByName finds a Kind.
 func KindByName(n string) Kind {
+	for _, k := range BoundaryKinds {
+		if k.Name == n {
+			return k
+		}
+	}
 	for _, k := range Kinds {
 		if k.Name == n {
 			return k
@@ -93,6 +111,25 @@ func Get(alg, role string) crypto.Signer {
 		k, err = ecdsa.GenerateKey(elliptic.P256(), rand.Reader)
 	case "ec384":
 		k, err = ecdsa.GenerateKey(elliptic.P384(), rand.Reader)
+	case "ec256x0", "ec256y0", "ec384x0", "ec384y0":
+		curve, size := elliptic.P256(), 32
+		if alg[:5] == "ec384" {
+			curve, size = elliptic.P384(), 48
+		}
+		for {
+			ek, e := ecdsa.GenerateKey(curve, rand.Reader)
+			if e != nil {
+				panic(e)
+			}
+			c := ek.X
+			if alg[5] == 'y' {
+				c = ek.Y
+			}
+			if len(c.Bytes()) < size {
+				k = ek
+				break
+			}
+		}
 	case "rsa2048":
 		k, err = rsa.GenerateKey(rand.Reader, 2048)
 	case "rsa3072":
@@ -119,7 +156,7 @@ func Get(alg, role string) crypto.Signer {
 // Pregenerate creates every key used by the checks (called from setup).
 func Pregenerate() {
 	var wg sync.WaitGroup
-	for _, alg := range []string{"ec256", "ec384", "rsa2048", "rsa3072"} {
+	for _, alg := range []string{"ec256", "ec384", "rsa2048", "rsa3072", "ec256x0", "ec256y0", "ec384x0", "ec384y0"} {
 		for _, role := range Roles {
 			wg.Add(1)
 			go func() { defer wg.Done(); Get(alg, role) }()
